@@ -12,13 +12,25 @@ Definition E_USAGE := 20.     (* clap: usage error, exit status 2 *)
 Definition E_ROOT := 21.      (* "Could not find the repository root directory" *)
 Definition E_GLOB := 22.      (* "Invalid glob pattern" / "Invalid ignore glob pattern" *)
 
+(* -E / -d / -e / --ignore are clap "global" flags: they may be typed before or
+   after the `list` subcommand.  clap checks every occurrence with the flag's
+   value parser, but hands main only the values of the DEEPEST level at which
+   the flag occurs: values typed before `list` are dropped as soon as the same
+   flag also occurs after it (observed on the real binary; finding F12). *)
+Definition effective {A} (pre post : list A) : list A := match post with [] => pre | _ => post end.
+
 Record cliargs := {
-  ca_ext_raw : list str;      (* the values typed after -E / --extension *)
-  ca_dis_raw : list str;      (* after -d / --disable *)
-  ca_en_raw : list str;       (* after -e / --enable *)
+  ca_ext_pre : list str;      (* the values typed after -E / --extension, before the subcommand *)
+  ca_ext_post : list str;     (* ... after `list` *)
+  ca_dis_pre : list str;      (* after -d / --disable *)
+  ca_dis_post : list str;
+  ca_en_pre : list str;       (* after -e / --enable *)
+  ca_en_post : list str;
+  ca_ign_post : N;            (* number of --ignore globs typed after `list` *)
   ca_nglobs : N;              (* positional globs, top level plus those after `list` *)
   ca_globs_ok : bool;         (* Glob::new accepts each positional glob (globset oracle) *)
-  ca_ignores_ok : bool;       (* ... and each --ignore glob *)
+  ca_ign_pre_ok : bool;       (* ... and each --ignore glob typed before the subcommand *)
+  ca_ign_post_ok : bool;      (* ... after it *)
   ca_list : bool;             (* the `list` subcommand *)
   ca_terminal : bool;         (* stdin is a terminal, or BLOCKWATCH_TERMINAL_MODE is set *)
   ca_stdin : str;             (* what stdin holds *)
@@ -61,9 +73,19 @@ Record plan := {
   pl_disabled : list N
 }.
 
+Definition ca_ext_raw (a : cliargs) : list str := ca_ext_pre a ++ ca_ext_post a.
+Definition ca_dis_raw (a : cliargs) : list str := ca_dis_pre a ++ ca_dis_post a.
+Definition ca_en_raw (a : cliargs) : list str := ca_en_pre a ++ ca_en_post a.
+
 Definition plan_of (a : cliargs) : res plan :=
+  (* every occurrence goes through its value parser ... *)
   match map_opt parse_extension (ca_ext_raw a), map_opt parse_validator (ca_dis_raw a),
         map_opt parse_validator (ca_en_raw a) with
+  | Some _, Some _, Some _ =>
+  (* ... main sees the effective ones *)
+  match map_opt parse_extension (effective (ca_ext_pre a) (ca_ext_post a)),
+        map_opt parse_validator (effective (ca_dis_pre a) (ca_dis_post a)),
+        map_opt parse_validator (effective (ca_en_pre a) (ca_en_post a)) with
   | Some exts, Some dis, Some en =>
     if negb (forallb (fun kv => supported (snd kv)) exts) then Err E_FLAGS
     else if nonempty dis && nonempty en then Err E_FLAGS
@@ -71,13 +93,26 @@ Definition plan_of (a : cliargs) : res plan :=
     else
       let star := (ca_nglobs a =? 0) && ca_terminal a in
       let scan := star || negb (ca_nglobs a =? 0) in
-      if negb (ca_ignores_ok a) then Err E_GLOB
+      if negb (if ca_ign_post a =? 0 then ca_ign_pre_ok a else ca_ign_post_ok a) then Err E_GLOB
       else if negb (ca_root a) then Err E_ROOT
       else Ok {| pl_scan := scan; pl_star := star;
                  pl_diff := if ca_terminal a then None else Some (ca_stdin a);
                  pl_ext := exts; pl_enabled := en; pl_disabled := dis |}
   | _, _, _ => Err E_USAGE
+  end
+  | _, _, _ => Err E_USAGE
   end.
+
+(* a file as main sees it: globset's verdict on the --ignore globs typed before
+   and after the subcommand, separately *)
+Record mfile := { mf_file : rfile; mf_ign_pre : bool; mf_ign_post : bool }.
+Definition effective_file (a : cliargs) (m : mfile) : rfile :=
+  let f := mf_file m in
+  {| rf_path := rf_path f; rf_text := rf_text f; rf_spans := rf_spans f; rf_exists := rf_exists f;
+     rf_readable := rf_readable f; rf_allow := rf_allow f;
+     rf_ignore := if ca_ign_post a =? 0 then mf_ign_pre m else mf_ign_post m |}.
+Definition mkmfile p t sp walked readable al ig_pre ig_post : mfile :=
+  {| mf_file := mkrfile' p t sp walked readable al false; mf_ign_pre := ig_pre; mf_ign_post := ig_post |}.
 
 (* with the "**" fallback every file is allowed *)
 Definition allow_all (f : rfile) : rfile :=
@@ -94,12 +129,12 @@ Inductive mainres :=
 | MList (cr : cresult)            (* `list`: the context that is printed (or its errors) *)
 | MRun (v : vresult).             (* the validation run *)
 
-Definition main_model (a : cliargs) (fs : list rfile) (tb : tables) (cd : list (str * str * list diffop)) : mainres :=
+Definition main_model (a : cliargs) (ms : list mfile) (tb : tables) (cd : list (str * str * list diffop)) : mainres :=
   match plan_of a with
   | Err e => MFail e
   | Panic _ => MFail E_USAGE
   | Ok p =>
-    let c := rcase_of p fs tb cd in
+    let c := rcase_of p (map (effective_file a) ms) tb cd in
     if ca_list a then MList (model_context c) else MRun (model_run c)
   end.
 
@@ -132,9 +167,16 @@ Definition main_missed (r : mainres) : bool :=
   | MRun v => oracle_missed v
   end.
 
-Definition mkcli e d n g gok iok l t s r : cliargs :=
-  {| ca_ext_raw := e; ca_dis_raw := d; ca_en_raw := n; ca_nglobs := g; ca_globs_ok := gok; ca_ignores_ok := iok;
+Definition mkcli e e' d d' n n' ip g gok iok iok' l t s r : cliargs :=
+  {| ca_ext_pre := e; ca_ext_post := e'; ca_dis_pre := d; ca_dis_post := d'; ca_en_pre := n; ca_en_post := n';
+     ca_ign_post := ip; ca_nglobs := g; ca_globs_ok := gok; ca_ign_pre_ok := iok; ca_ign_post_ok := iok';
      ca_list := l; ca_terminal := t; ca_stdin := s; ca_root := r |}.
+
+(* F12: the class of command lines on which values are dropped *)
+Definition split_flags (a : cliargs) (ms : list mfile) : bool :=
+  (nonempty (ca_ext_pre a) && nonempty (ca_ext_post a))
+  || (negb (ca_ign_post a =? 0) && existsb (fun m => mf_ign_pre m && negb (mf_ign_post m)) ms).
+Definition KNOWN_F12 := 8 + 4 * 256.
 
 (* C15 through main: the listed blocks are those of the files in scope, by construction
    (None = the run must stop with an error) *)
@@ -158,7 +200,24 @@ Definition spec_flag_main (keep : N -> bool) (o0 : obs) (o1 : mobs) : bool :=
   end.
 
 (* verdict for a run of the real binary against the model of main *)
-Definition check_main (a : cliargs) (fs : list rfile) (tb : tables) (cd : list (str * str * list diffop))
+Definition check_main (a : cliargs) (fs : list mfile) (tb : tables) (cd : list (str * str * list diffop))
                       (o : mobs) (spec_ok : bool) : N :=
   let r := main_model a fs tb cd in
   verdict (main_agrees r o) spec_ok (main_missed r).
+
+Definition check_scope_main (a : cliargs) (fs : list mfile) (tb : tables) (cd : list (str * str * list diffop))
+                            (o : mobs) (exp : option (list (str * lblock))) (extra : bool) : N :=
+  let r := main_model a fs tb cd in
+  let spec := spec_scope_main exp o && extra in
+  (* the implementation does what the faithful model says, the property is not met, and the
+     command line is in the known class: finding F12, not a new violation *)
+  if main_agrees r o && negb spec && split_flags a fs && negb (main_missed r) then KNOWN_F12
+  else verdict (main_agrees r o) spec (main_missed r).
+
+Definition check_flag_main (c0 : rcase) (o0 : obs) (a : cliargs) (fs : list mfile) (tb : tables)
+                           (o1 : mobs) (enable : bool) (vs : list N) : N :=
+  let keep := fun v => if enable then existsb (N.eqb v) vs else negb (existsb (N.eqb v) vs) in
+  let r := main_model a fs tb [] in
+  verdict (run_agrees (model_run c0) o0 && main_agrees r o1) (spec_flag_main keep o0 o1)
+          (full_missed c0 || main_missed r).
+
